@@ -237,6 +237,28 @@ pub fn gen_compound(rng: &mut Rng, p: &Pool) -> String {
     if rng.chance(1, 6) {
         return gen_long_compound(rng, p);
     }
+    if rng.chance(1, 8) {
+        // a compound made only of zero words
+        let z = rng.word(p.zero);
+        let z2 = rng.word(p.zero);
+        return match p.code {
+            "de" => format!("{z}und{z2}"),
+            "nl" => format!("{z}en{z2}"),
+            "it" => format!("{z}{z2}"),
+            _ => format!("{z}-{z2}"),
+        };
+    }
+    if rng.chance(1, 8) {
+        // a compound cut right after its connector (or with a dangling hyphen)
+        let u = rng.word(p.units);
+        return match p.code {
+            "de" => format!("{u}und"),
+            "nl" => format!("{u}en"),
+            "fr" => format!("{}-et", rng.word(p.tens)),
+            "it" => format!("{}cento", u),
+            _ => format!("{}-", rng.word(p.tens)),
+        };
+    }
     let mut s = String::new();
     match p.code {
         "de" | "nl" => {
